@@ -713,6 +713,8 @@ def named_recipes():
         # new_variable() without a label (label is documented as optional)
         ('unlabelled-variable', [['var', None], ['cl', [1]], ['cl', [-1]]]),
         ('unlabelled-variable', [['var', 'X'], ['var', None], ['cl', [1, -2]]]),
+        # very long labels
+        ('named-vars', [['var', 'L' * 300], ['var', 'ab' * 150], ['cl', [1, -2]]]),
         # labels with characters a reader may take for a line break
         ('names-linebreak', [['var', 'a\rb'], ['var', 'c'], ['cl', [1, -2]]]),
         ('names-linebreak', [['var', 'a\n+1 x1 >= 1 ;'], ['var', 'c\r+1 x2 >= 1 ;'], ['cl', [1, -2]]]),
@@ -831,6 +833,10 @@ def header_recipes():
         ('header', '  surrounded by spaces  ', []),
         ('header', 'extra fields', [['hdr', 'count', 12], ['hdr', 'note', '+1 x1 >= 1'],
                                     ['hdr', 'p cnf 3 2', '>= 1']]),
+        # longer than any line length a writer may want to fold at (80, 255, 1024)
+        ('header', 'a very long description ' + 'word +1 x1 >= 1 ' * 80, []),
+        ('header', 'fields', [['hdr', 'command line', 'cnfgen ' + '--option value ' * 30],
+                              ['hdr', 'unbroken', 'x' * 1100]]),
         ('header-newline', 'first line\nsecond line', []),
         ('header-newline', 'fields', [['hdr', 'note', 'a\nb']]),
         ('header-newline', 'fields', [['hdr', 'note', 'a\n+1 x1 >= 1']]),
